@@ -410,8 +410,8 @@ def subchecks(tier):
     return [
         Sub("curvature3", curv_case(), test_curv, 8 if q else 300,
             generic=generic_curv(), shards=8 if q else 16, max_rounds=2,
-            shrink_quick=False),
+            shrink_quick=False, pregenerate=True),
         Sub("helpers", helper_case(), test_helpers, 8 if q else 300,
             generic=generic_helpers(), shards=8 if q else 16, max_rounds=2,
-            shrink_quick=False),
+            shrink_quick=False, pregenerate=True),
     ]
